@@ -582,6 +582,12 @@ func (h *httpServerHandler) handleGet(ctx context.Context, w http.ResponseWriter
 		return
 	}
 
+	// A listening stream belongs to a session: refuse when sessions are disabled (no session manager).
+	if !h.enableSession || h.sessionManager == nil {
+		http.Error(w, "Session management disabled", http.StatusNotImplemented)
+		return
+	}
+
 	// Check if there's a session ID
 	sessionID := r.Header.Get(httputil.SessionIDHeader)
 	if sessionID == "" {
